@@ -352,12 +352,13 @@ func (s *scenario) short() string {
 const asciiName = "abcdefghijklmnopqrstuvwxyzABCDEFGHIJKLMNOPQRSTUVWXYZ0123456789_-.:!#$%&'()*+<>?@[]^`{|}~ =\""
 
 type pools struct {
-	names   [][]byte
-	tagKeys [][]byte
-	tagVals map[string][][]byte
-	fldKeys [][]byte
-	fldType map[string]byte
-	times   []int64
+	names    [][]byte
+	tagKeys  [][]byte
+	tagVals  map[string][][]byte
+	fldKeys  [][]byte
+	fldType  map[string]byte
+	times    []int64
+	hourBase int64
 }
 
 func genE2EName(r *hx.Rng, uniq int) []byte {
@@ -422,12 +423,14 @@ func genPools(r *hx.Rng, uniq int) *pools {
 		p.fldKeys = append(p.fldKeys, k)
 		p.fldType[string(k)] = "ifbs"[r.Intn(4)]
 	}
-	base := []int64{0, 1, 1600000000, 1600000000000, 1700000000123456789, 86400, 4102444800}[r.Intn(7)]
+	// timestamps: an hour base (the same instant whatever the precision of the request) plus a
+	// few units of the request's precision; now and then a value at the end of the int64 range
+	p.hourBase = []int64{0, 0, 444444, 444445, 1139568, 2562047}[r.Intn(6)]
 	for i := 1 + r.Intn(3); i > 0; i-- {
-		p.times = append(p.times, base+int64(r.Intn(3)))
+		p.times = append(p.times, int64(r.Intn(3)))
 	}
 	if r.Chance(5) {
-		p.times = append(p.times, math.MaxInt64-int64(r.Intn(3)))
+		p.times = append(p.times, -1) // math.MaxInt64 - k, as written
 	}
 	return p
 }
@@ -461,7 +464,7 @@ func genValue(r *hx.Rng, typ byte, hasEscape *bool) (fval, []byte) {
 	return fval{kind: 's', s: s}, spellString(r, s, hasEscape)
 }
 
-func genE2ELine(r *hx.Rng, p *pools, conflictPct int) e2eLine {
+func genE2ELine(r *hx.Rng, p *pools, conflictPct int, prec string) e2eLine {
 	pt := &point{hasTS: true}
 	esc := false
 	pt.name = p.names[r.Intn(len(p.names))]
@@ -495,7 +498,7 @@ func genE2ELine(r *hx.Rng, p *pools, conflictPct int) e2eLine {
 			continue
 		}
 		reps := 1
-		if r.Chance(6) {
+		if r.Chance(3) {
 			reps = 2 // the same field key twice in one line
 		}
 		for ; reps > 0; reps-- {
@@ -514,7 +517,11 @@ func genE2ELine(r *hx.Rng, p *pools, conflictPct int) e2eLine {
 			pt.fields = append(pt.fields, fieldKV{k, v})
 		}
 	}
-	pt.ts = p.times[r.Intn(len(p.times))]
+	if k := p.times[r.Intn(len(p.times))]; k < 0 {
+		pt.ts = math.MaxInt64 - int64(r.Intn(3))
+	} else {
+		pt.ts = p.hourBase*(3600e9/specMultiplier(prec)) + k
+	}
 	line = append(line, ' ')
 	line = append(line, strconv.FormatInt(pt.ts, 10)...)
 	return e2eLine{text: line, p: pt}
@@ -537,7 +544,7 @@ func genScenario(r *hx.Rng, uniq int) *scenario {
 			nl = 5 + r.Intn(8)
 		}
 		for j := 0; j < nl; j++ {
-			q.lines = append(q.lines, genE2ELine(r, p, conflictPct))
+			q.lines = append(q.lines, genE2ELine(r, p, conflictPct, q.prec))
 		}
 		if r.Chance(6) {
 			// a line outside the grammar as the last line of the body: the whole request is refused
